@@ -34,11 +34,11 @@ CHECKS.update({
  "C11": dict(tech=REF + "; whole-string regexp semantics restated with Go's regexp on \\A(?:p)\\z",
    text="Exploration against an independent policy evaluator: generated ordered permit/deny rules with alternations, partial anchors, escaped metacharacters, invalid syntax and whitespace, user/group layering and services with match conditions; requests with arbitrary argument lists; outcome observed end to end through loader, server and authorizer.",
    note="Schedule search contributes nothing here; the deciding element is the independent evaluator plus seeded sampling of policies and requests. Invalid patterns and ADD/REPL-by-request-only are enumerated bands.", ref="DESIGN.md 5/C11"),
- "C12": dict(tech=REF + "; simulated accounting sink rendering Printf exactly; record decoded independently and compared byte for byte",
-   text="Exploration: accounting requests with every flag combination and text over all 128 ASCII codes; the oracle requires, for every SUCCESS, exactly one sink record written before the reply that decodes to exactly the request.",
-   note="The sink interface cannot report disk faults; loss is modelled as connection faults around the sink call.", ref="DESIGN.md 5/C12"),
- "C13": dict(tech=REF + "; simulated listener hands out connections with arbitrary remote addresses; independent admission evaluator",
-   text="Exploration: generated documents with overlapping prefixes, deny/allow lists, IPv4/IPv6/IPv4-mapped/non-TCP remote addresses at prefix boundaries; the oracle checks refusal (zero bytes, no handler) or the bound scope key and user set against the evaluator.",
+ "C12": dict(tech=REF + "; simulated accounting sink rendering Printf exactly; record decoded independently and compared byte for byte; syslog-backed accounter driven sequentially against a scripted syslog daemon on a unix datagram socket that goes away and comes back",
+   text="Exploration: accounting requests with every flag combination and text over all 128 ASCII codes; the oracle requires, for every SUCCESS, exactly one sink record written before the reply that decodes to exactly the request. A second family hands generated requests to the real syslog-backed accounter (real log/syslog.Writer) while the daemon is made unreachable and reachable again: one reply per request, SUCCESS only with exactly one matching record at the daemon before the reply.",
+   note="The file sink interface cannot report disk faults; loss is modelled as connection faults around the sink call. The syslog family uses a real unix datagram socket in a private temporary directory (log/syslog.Writer offers no seam); it is sequential and replays exactly.", ref="DESIGN.md 5/C12"),
+ "C13": dict(tech=REF + "; simulated listener hands out connections with arbitrary remote addresses; independent admission evaluator; concurrent lookups on a yield-instrumented copy (go/ast yields in loader, prefix filter and prefix provider) checked for linearizability against the evaluator with porcupine",
+   text="Exploration: generated documents with overlapping prefixes, deny/allow lists, IPv4/IPv6/IPv4-mapped/non-TCP remote addresses at prefix boundaries; the oracle checks refusal (zero bytes, no handler) or the bound scope key and user set against the evaluator. A second family admits several connections at once through freshly built filters and providers (start-up, reload) with the scheduler parking lookups between any two statements; every outcome must be explained by one whole configuration.",
    note="IPv4-mapped addresses against short IPv6 prefixes and scopes without loadable users are enumerated bands.", ref="DESIGN.md 5/C13"),
  "C18": dict(tech=REF + "; simulated logger records every call; token scan",
    text="Exploration: unique 20-character passwords and shared secrets; all authentication histories including error, abort and unrecognised paths; nothing the server hands to its logger (messages, records minus obscured keys, retained context fields) may contain a token in raw, hex, base64 or byte-list form.",
@@ -56,8 +56,8 @@ CHECKS.update({
    text="Exploration of schedules: 0..6 connections idle, mid-header, mid-body, with handlers parked at seams or writes blocked; the tape places cancellation, accept errors and listener close anywhere, including in the same scheduler step as an accept or a delivery (batch mode); the clock is advanced to just before/at/after each deadline. Oracle: at 'Serve returned' listener and all accepted connections are closed, all handlers ended, nothing happens afterwards; Serve returns within a bounded number of deadline advances once nothing is parked; every read is preceded by a finite future deadline that is not extended inside a packet, and an expired deadline closes the connection.",
    note="Liveness is bounded (12 deadline advances after the last fault); schedules sampled.", ref="DESIGN.md 5/C17"),
  "C20": dict(tech=SIM + "; prometheus gauges read at every quiescent scheduler step and compared with counters derived from the history",
-   text="Exploration: connection histories mixing completed and abandoned sessions, refused admissions, sequence violations (even first number), key mismatches, resets and shutdown with open connections; the four gauges are read at every quiescent step: never below rest, equal to the history-derived model (handlers, sessions), back at rest once everything closed.",
-   note="Gauges are process-global: values are taken relative to the run's baseline read at rest.", ref="DESIGN.md 5/C20"),
+   text="Exploration: connection histories mixing completed and abandoned sessions, refused admissions, sequence violations (even first number), key mismatches, resets and shutdown with open connections; the four gauges are read at every quiescent step: never below rest, equal to the history-derived model (handlers, sessions), back at rest once everything closed. In part of the runs a second Server value of the same process holds idle connections open during the burst.",
+   note="Gauges are process-global: values are taken relative to the run's baseline read at rest (and, with a sibling server, relative to the value read once its connections are open).", ref="DESIGN.md 5/C20"),
 })
 
 PEER = SIM + "; independent simulated RFC 8907 peer on both sides (model client vs real server, real tacquito.Client vs model server)"
